@@ -40,6 +40,7 @@ type Beh struct {
 	Code   int    `json:"code,omitempty"`
 	SlowMS int    `json:"slow_ms,omitempty"` // the answer arrives after that much virtual time
 	Chain  string `json:"chain,omitempty"`   // kind chain (part h, redir_test.go): what each URL of a redirect walk answers
+	Hdr    string `json:"hdr,omitempty"`     // kind status over the real HTTPDeliverer (part i): one extra "Name: value" header line of the answer
 }
 
 func (b Beh) String() string {
@@ -53,7 +54,16 @@ func (b Beh) String() string {
 	if b.SlowMS > 0 {
 		s += fmt.Sprintf("~%dms", b.SlowMS)
 	}
+	if b.Hdr != "" {
+		s += "+{" + b.Hdr + "}"
+	}
 	return s
+}
+
+// hdrName is the lower-cased name of the extra header line of the answer ("" = none).
+func (b Beh) hdrName() string {
+	n, _, _ := strings.Cut(b.Hdr, ":")
+	return strings.ToLower(strings.TrimSpace(n))
 }
 
 // wait lets the answer take its (virtual) time; false: the request context ended first.
@@ -133,6 +143,9 @@ func (scriptTransport) RoundTrip(req *http.Request) (*http.Response, error) {
 		h := http.Header{}
 		if b.Code >= 300 && b.Code < 400 {
 			h.Set("Location", "http://"+okHost+"/elsewhere")
+		}
+		if n, v, ok := strings.Cut(b.Hdr, ":"); ok {
+			h.Set(strings.TrimSpace(n), strings.TrimSpace(v))
 		}
 		return &http.Response{StatusCode: b.Code, Status: fmt.Sprintf("%d x", b.Code), Proto: "HTTP/1.1", ProtoMajor: 1, ProtoMinor: 1,
 			Header: h, Body: http.NoBody, Request: req}, nil
@@ -574,6 +587,12 @@ type Spec struct {
 	Burst    *Burst `json:"burst,omitempty"`     // other traffic through the same store (part f)
 	Restart  string `json:"restart,omitempty"`   // operator action that starts the new cycle: "" = requeue-dead | requeue-messages | requeue-filter | cancel-resume
 	HorizonS int    `json:"horizon_s,omitempty"` // >0: virtual-time horizon of one cycle in seconds (default: derived from the compiled timeouts)
+
+	// part j (retain_test.go): Store "wired-memory" / "wired-sqlite" is the store the production wiring opens from the
+	// configuration text (queue backend + the written retention blocks; nothing written = the documented defaults).
+	Retain    string `json:"retain,omitempty"`      // which retention blocks the text writes (retainBlocks)
+	IdleSteps int    `json:"idle_steps,omitempty"`  // after every message is settled the store stays in use for that many steps ...
+	IdleStepS int    `json:"idle_step_s,omitempty"` // ... of that many virtual seconds each (an idle worker poll and the operator's listings per step)
 }
 
 type Final struct {
@@ -599,6 +618,9 @@ type Result struct {
 	Restarts  map[string][]int `json:"restarts,omitempty"` // message id -> cycles the operator started for it
 	OtherSent int              `json:"other_sent"`         // other-traffic messages put into the store
 	OtherOpen int              `json:"other_open"`         // ... of which not delivered/dead-lettered at the end
+
+	IdleDone   int      `json:"idle_done,omitempty"`   // idle steps that ran after the settlement (part j)
+	IdleLeased []string `json:"idle_leased,omitempty"` // messages an idle worker poll was handed although every message was settled
 }
 
 var (
@@ -674,10 +696,33 @@ func runHistory(t *testing.T, sp Spec) Result {
 
 	synctest.Test(t, func(t *testing.T) {
 		t0 := time.Now()
-		under, closeStore, err := openStore(sp.Store, dir)
-		if err != nil {
-			res.Infra = "open store: " + err.Error()
-			return
+		var under queue.Store
+		var closeStore func()
+		var err error
+		if backend, ok := strings.CutPrefix(sp.Store, "wired-"); ok {
+			// the store as the production wiring opens it from the configuration text (newQueueStore)
+			worldMu.Lock()
+			bootSeq++
+			seq := bootSeq
+			worldMu.Unlock()
+			os.RemoveAll(dir)
+			a, berr := app.VerifBoot(app.VerifBootOptions{Dir: dir, ConfigText: listenLines(seq) + specDSL(sp)})
+			if berr != nil {
+				res.Infra = "boot wired store: " + berr.Error()
+				return
+			}
+			under, closeStore = a.Store, func() { a.Shutdown(); os.RemoveAll(dir) }
+			if a.Backend != backend {
+				closeStore()
+				res.Infra = fmt.Sprintf("wired store: the wiring opened backend %q, the text says %q", a.Backend, backend)
+				return
+			}
+		} else {
+			under, closeStore, err = openStore(sp.Store, dir)
+			if err != nil {
+				res.Infra = "open store: " + err.Error()
+				return
+			}
 		}
 		defer closeStore()
 
@@ -703,7 +748,7 @@ func runHistory(t *testing.T, sp Spec) Result {
 			store = noBatch{rec} // the underlying store has no batch extension: do not advertise one
 		}
 		d := &dispatcher.PushDispatcher{Store: store, Deliverer: del, Routes: w.Routes, Logger: discard}
-		if strings.HasPrefix(sp.Store, "sqlite") {
+		if strings.Contains(sp.Store, "sqlite") {
 			// SQLite's Dequeue polls every 25ms of virtual time with a real query; a shorter long-poll keeps the
 			// drain at the end of a history cheap (no influence on classification, delay or settlement)
 			d.MaxWait = 250 * time.Millisecond
@@ -859,6 +904,43 @@ func runHistory(t *testing.T, sp Spec) Result {
 		}
 		res.DrainOK = d.Drain(10 * time.Minute)
 		synctest.Wait()
+
+		// part j: every message is settled; the store stays in use while (virtual) time passes - an idle worker
+		// poll per route and target, the operator looking at the backlog and the DLQ - so that whatever the store
+		// does periodically (retention passes) has run several times before the final listings are read
+		rec.mu.Lock()
+		allSettled := len(rec.terminal) >= rec.want && !rec.runaway
+		rec.mu.Unlock()
+		if sp.IdleSteps > 0 && allSettled && res.DrainOK && !res.Stuck && res.Infra == "" {
+			for i := 0; i < sp.IdleSteps && res.Infra == ""; i++ {
+				time.Sleep(time.Duration(sp.IdleStepS) * time.Second)
+				seen := map[string]bool{}
+				for _, m := range sp.Msgs {
+					k := m.route() + " " + m.Target
+					if seen[k] {
+						continue
+					}
+					seen[k] = true
+					resp, err := under.Dequeue(queue.DequeueRequest{Route: m.route(), Target: m.Target, Batch: 10, LeaseTTL: 30 * time.Second, MaxWait: time.Millisecond})
+					if err != nil {
+						res.Infra = "idle poll: " + err.Error()
+						break
+					}
+					for _, it := range resp.Items {
+						res.IdleLeased = append(res.IdleLeased, it.ID)
+					}
+					if _, err := under.ListDead(queue.DeadListRequest{Route: m.route(), Limit: 10}); err != nil {
+						res.Infra = "idle dlq listing: " + err.Error()
+						break
+					}
+					if _, err := under.ListMessages(queue.MessageListRequest{Route: m.route(), Limit: 10}); err != nil {
+						res.Infra = "idle backlog listing: " + err.Error()
+						break
+					}
+				}
+				res.IdleDone++
+			}
+		}
 
 		rec.mu.Lock()
 		res.Runaway = rec.runaway
